@@ -11,6 +11,7 @@ STD_METHODS = [
     {'name': 'perr', 'sig': [], 'ctx': ('none',), 'body': ('rpc', 5, 'm', None)},
     {'name': 'perr2', 'sig': [], 'ctx': ('none',), 'body': ('rpc', -32001, 'x', '<unset>')},
     {'name': 'nul', 'sig': [], 'ctx': ('none',), 'body': ('ret', None)},
+    {'name': 'slow', 'sig': [('a', 'PK', True)], 'ctx': ('none',), 'body': ('ret', 'slow'), 'yields': 3},
     {'name': 'ctxm', 'sig': [('c', 'PK', False), ('a', 'PK', True)], 'ctx': ('name', 'c'), 'body': ('env',)},
 ]
 STD_CFG = {'methods': STD_METHODS, 'mws': [], 'ehs': [], 'max_batch': None}
